@@ -250,8 +250,8 @@ func c29RunScenario(x *mc.Exec, sc c29Scenario, rep *mc.Report) mc.Verdict {
 	if res.Deadlock || res.StepCap || res.Horizon {
 		return mc.Verdict{Violation: fmt.Sprintf("%s: a request waits forever (%s); log %v", sc.name, strings.Join(res.Blocked, "; "), log), Sig: "C29:queue-request-waits-forever", Detail: map[string]any{"scenario": sc.name, "blocked": res.Blocked}}
 	}
-	if res.Leaked > 0 {
-		panic(c29Infra(fmt.Sprintf("%d goroutines leaked in scenario %s", res.Leaked, sc.name)))
+	if res.Leaked > 0 && !vsched.NoteLeak(res.Leaked) {
+		panic(c29Infra(fmt.Sprintf("too many leaked goroutines (%d more in scenario %s)", res.Leaked, sc.name)))
 	}
 	// (c) at the end everything was released: no leaked capacity, nobody queued
 	q := mon.q
